@@ -480,15 +480,15 @@ func wireStages(stages []logql.PipelineStage) []F {
 		case *logql.PatternLabelParser:
 			out = append(out, F{"t": "pattern", "txt": B(st.Pattern)})
 		case *logql.RegexpLabelParser:
-			// named groups in index order (the generated expressions have no unnamed capturing groups)
+			// named groups with the index of their capturing group
 			idx := make([]int, 0, len(st.Mapping))
 			for i := range st.Mapping {
 				idx = append(idx, i)
 			}
 			sort.Ints(idx)
-			names := [][]int{}
+			names := []any{}
 			for _, i := range idx {
-				names = append(names, B(string(st.Mapping[i])))
+				names = append(names, []any{i, B(string(st.Mapping[i]))})
 			}
 			out = append(out, F{"t": "regexp", "txt": B(st.Regexp.String()), "names": names})
 		case *logql.UnpackLabelParser:
